@@ -17,6 +17,10 @@ import (
 type skel struct {
 	c     *ex.Ctx
 	lines []string
+	// structLits: keyed composite literals `T{K: e, …}` become `T{}(K, e)…` (a call of the literal
+	// `T{}` with one `pair (var K) e` argument per field) instead of squashed source text. Used for
+	// the widgets bodies (Gen/WidSkel.lean) only, so that Gen/DynSkel.lean keeps its shape.
+	structLits bool
 }
 
 func lstr(s string) string { return ex.LeanStr(strings.Join(strings.Fields(s), " ")) }
@@ -57,6 +61,28 @@ func (k *skel) expr(e ast.Expr) string {
 		}
 		return "(.lit " + lstr(v.Value) + ")"
 	case *ast.CompositeLit:
+		if k.structLits && len(v.Elts) > 0 && v.Type != nil {
+			keyed := true
+			for _, el := range v.Elts {
+				kv, ok := el.(*ast.KeyValueExpr)
+				if !ok {
+					keyed = false
+					break
+				}
+				if _, ok := kv.Key.(*ast.Ident); !ok {
+					keyed = false
+					break
+				}
+			}
+			if keyed {
+				s := "(.call (.lit " + lstr(strings.ReplaceAll(norm(k.c, v.Type), " ", "")+"{}") + "))"
+				for _, el := range v.Elts {
+					kv := el.(*ast.KeyValueExpr)
+					s = "(.arg " + s + " (.pair (.var " + lstr(kv.Key.(*ast.Ident).Name) + ") " + k.expr(kv.Value) + "))"
+				}
+				return s
+			}
+		}
 		return "(.lit " + lstr(strings.ReplaceAll(strings.ReplaceAll(norm(k.c, v), " ", ""), ",}", "}")) + ")"
 	case *ast.UnaryExpr:
 		return "(.un " + lstr(v.Op.String()) + " " + k.expr(v.X) + ")"
@@ -66,6 +92,11 @@ func (k *skel) expr(e ast.Expr) string {
 		return "(.bin " + lstr(v.Op.String()) + " " + k.expr(v.X) + " " + k.expr(v.Y) + ")"
 	case *ast.IndexExpr:
 		return "(.index " + k.expr(v.X) + " " + k.expr(v.Index) + ")"
+	case *ast.SliceExpr:
+		if v.Slice3 {
+			break
+		}
+		return "(.bin \"[:]\" " + k.expr(v.X) + " (.pair " + k.expr(v.Low) + " " + k.expr(v.High) + "))"
 	case *ast.CallExpr:
 		if v.Ellipsis != token.NoPos {
 			break
@@ -248,9 +279,23 @@ func rename(fd *ast.FuncDecl) {
 		}
 	}
 	n := 0
+	// the parser resolves the KEY of `T{items: items}` to the variable `items` as well: keys keep their names
+	keys := map[*ast.Ident]bool{}
+	ast.Inspect(fd, func(x ast.Node) bool {
+		if cl, ok := x.(*ast.CompositeLit); ok {
+			for _, el := range cl.Elts {
+				if kv, ok := el.(*ast.KeyValueExpr); ok {
+					if id, ok := kv.Key.(*ast.Ident); ok {
+						keys[id] = true
+					}
+				}
+			}
+		}
+		return true
+	})
 	ast.Inspect(fd, func(x ast.Node) bool {
 		id, ok := x.(*ast.Ident)
-		if !ok || id.Obj == nil || id.Obj.Kind != ast.Var || id.Name == "_" {
+		if !ok || keys[id] || id.Obj == nil || id.Obj.Kind != ast.Var || id.Name == "_" {
 			return true
 		}
 		if id.Obj.Pos() < fd.Pos() || id.Obj.Pos() > fd.End() {
@@ -263,7 +308,7 @@ func rename(fd *ast.FuncDecl) {
 		return true
 	})
 	ast.Inspect(fd, func(x ast.Node) bool {
-		if id, ok := x.(*ast.Ident); ok && id.Obj != nil {
+		if id, ok := x.(*ast.Ident); ok && id.Obj != nil && !keys[id] {
 			if nm, ok := names[id.Obj]; ok {
 				id.Name = nm
 			}
@@ -301,4 +346,51 @@ func genSkel(c *ex.Ctx, d *ast.File) {
 	}
 	sb.WriteString("\nend VaxisModel.Gen.DynSkel\n")
 	c.Write("DynSkel.lean", sb.String())
+}
+
+// genWidSkel writes Gen/WidSkel.lean: the bodies of widgets/list, widgets/pager and widgets/scrollbar,
+// translated statement by statement like Dynamic's (keyed composite literals structured).
+func genWidSkel(c *ex.Ctx, list, pager, bar *ast.File) {
+	var sb strings.Builder
+	sb.WriteString("import VaxisModel.Model.GoSyn\n\n/-! The bodies of widgets/list/list.go, widgets/pager/pager.go and widgets/scrollbar/scrollbar.go,\n    translated statement by statement (receiver renamed to d, parameters and locals to v0, v1, … in\n    order of first appearance; keyed composite literals `T{K: e}` as `T{}(K, e)`). -/\nnamespace VaxisModel.Gen.WidSkel\nopen VaxisModel.Model.GoSyn\n")
+	fns := []struct {
+		f              *ast.File
+		recv, goName   string
+		leanName, what string
+	}{
+		{list, "", "min", "listMin", "widgets/list min"}, {list, "", "max", "listMax", "widgets/list max"},
+		{list, "", "New", "listNew", "widgets/list New"}, {list, "List", "Index", "listIndex", "List.Index"},
+		{list, "List", "Draw", "listDraw", "List.Draw"}, {list, "List", "Down", "listDown", "List.Down"},
+		{list, "List", "Up", "listUp", "List.Up"}, {list, "List", "Home", "listHome", "List.Home"},
+		{list, "List", "End", "listEnd", "List.End"}, {list, "List", "PageDown", "listPageDown", "List.PageDown"},
+		{list, "List", "PageUp", "listPageUp", "List.PageUp"}, {list, "List", "SetItems", "listSetItems", "List.SetItems"},
+		{pager, "Model", "Draw", "pagerDraw", "pager Model.Draw"}, {pager, "Model", "Layout", "pagerLayout", "pager Model.Layout"},
+		{pager, "Model", "ScrollDown", "pagerScrollDown", "pager Model.ScrollDown"},
+		{pager, "Model", "ScrollUp", "pagerScrollUp", "pager Model.ScrollUp"},
+		{pager, "line", "append", "lineAppend", "pager line.append"},
+		{bar, "Model", "Draw", "barDraw", "scrollbar Model.Draw"},
+	}
+	for _, m := range fns {
+		var fd *ast.FuncDecl
+		if m.f != nil {
+			fd = ex.FindFunc(m.f, m.recv, m.goName)
+		}
+		fmt.Fprintf(&sb, "\n/-- `%s` -/\ndef %s : List Line := [", m.what, m.leanName)
+		if fd == nil || fd.Body == nil {
+			sb.WriteString("\n  ⟨0, .unknown, (.unknown \"function not found\"), .none⟩]\n")
+			continue
+		}
+		rename(fd)
+		k := &skel{c: c, structLits: true}
+		k.block(0, fd.Body)
+		for i, l := range k.lines {
+			if i > 0 {
+				sb.WriteString(",")
+			}
+			sb.WriteString("\n  " + l)
+		}
+		sb.WriteString("]\n")
+	}
+	sb.WriteString("\nend VaxisModel.Gen.WidSkel\n")
+	c.Write("WidSkel.lean", sb.String())
 }
